@@ -6,6 +6,7 @@ import Mathlib.Tactic.NormNum
 import Mathlib.Tactic.FinCases
 import Mathlib.LinearAlgebra.Matrix.Notation
 import TapkeeVerif.Proofs.SpectralLocal
+import TapkeeVerif.Proofs.CertGenSound
 /-!
 C10 property theorems: the feature-space generalised eigenproblem `(lhs, rhs)` built by NPE / LLTSA / LPP
 (`construct_neighborhood_preserving_eigenproblem`, `construct_lltsa_eigenproblem`,
@@ -411,7 +412,7 @@ variable {K : Type} [Field K] [LinearOrder K] [IsStrictOrderedRing K]
     `(As, Bs)` is what the generalised solver reads (`genSolveLower` of the constructed pair), `(V, lam)` its full
     `Bs`-orthonormal eigensystem with ascending eigenvalues (solver contract), `P` the first `d` columns (skip = 0).
     If `As = c • A` and `Bs = c' • B` with `c, c' > 0` for the property's `A = X M Xᵀ`, `B = X B Xᵀ`
-    (`solver_sees_XMXt`: FALSE on the current tree, true for the patched routines with `c = 2`, `c' = 1`), then every
+    (`solver_sees_XMXt`: proved for the current routines with `c = 2`, `c' = 1`; false before fix F-LIN-TRI), then every
     column solves `A p = (c'/c · lam) B p` and `P` minimises `tr(Zᵀ A Z)` over `Zᵀ B Z = 1/c'`-normalised `Z`
     (stated for the seen pencil: `tr(Pᵀ As P) ≤ tr(Zᵀ As Z)` for all `Zᵀ Bs Z = 1`): the `d` smallest eigenvalues. -/
 theorem lin_solution {n d : Nat} (A B As Bs V : Matrix (Fin n) (Fin n) K) (lam : Fin n → K) (c c' : K)
@@ -472,6 +473,33 @@ example : GenEigSystem ((2 : ℚ) • ((1 / 2 : ℚ) • (!![1, -1; -1, 1] : Mat
     fin_cases i <;> fin_cases j <;> simp [Matrix.mul_apply, Fin.sum_univ_two] <;> norm_num
   · intro a b hab
     fin_cases a <;> fin_cases b <;> simp_all
+
+/-! ### soundness of the inertia count every spectral verdict of the run-time certificate rests on
+(`Model/CertGen.lean: belowCount` = the exact rational LDLᵀ `Cert.inertiaPos` of `Model/Cert.lean` on `σ·B − A`;
+proofs: `Proofs/CertGenSound.lean` on top of `Proofs/Inertia.inertiaPos_sound`) -/
+
+/-- if the elimination of `S` closes with `p` positive pivots, `S` is positive definite on no family of more than `p`
+    independent directions -/
+theorem belowCount_sound {n : Nat} (S : Mat n n ℚ) (p : Nat) (h : TapkeeVerif.Cert.belowCount S = some p)
+    {m : Type} [Fintype m] (W : Matrix (Fin n) m ℚ)
+    (hpos : ∀ c : m → ℚ, c ≠ 0 → 0 < (W *ᵥ c) ⬝ᵥ (Mat.toM S *ᵥ (W *ᵥ c))) :
+    Fintype.card m ≤ p :=
+  TapkeeVerif.Cert.belowCount_sound S p h W hpos
+
+/-- `belowCount (σ·B − A) = some p` ⇒ the pencil `(A, B)` has at most `p` eigenvalues below `σ` -/
+theorem belowCount_bounds_eigenvalues {n : Nat} {A B V : Matrix (Fin n) (Fin n) ℚ} {lam : Fin n → ℚ}
+    (h : GenEigSystem A B V lam) (σ : ℚ) (p : Nat)
+    (hc : TapkeeVerif.Cert.belowCount (fun i j => σ * B i j - A i j) = some p) :
+    (Finset.univ.filter fun j => lam j < σ).card ≤ p :=
+  TapkeeVerif.Cert.belowCount_bounds_eigenvalues h σ p hc
+
+/-- the form the certificate uses: with `p ≤ m`, every eigenvalue of index `≥ m` is `≥ σ` — so `m` approximate
+    eigenvectors with Rayleigh quotients below `σ` account for ALL eigenvalues below `σ`: they are the `m` smallest -/
+theorem bottom_certified {n : Nat} {A B V : Matrix (Fin n) (Fin n) ℚ} {lam : Fin n → ℚ}
+    (h : GenEigSystem A B V lam) (σ : ℚ) (p m : Nat)
+    (hc : TapkeeVerif.Cert.belowCount (fun i j => σ * B i j - A i j) = some p) (hpm : p ≤ m) :
+    ∀ j : Fin n, m ≤ j.1 → σ ≤ lam j :=
+  TapkeeVerif.Cert.bottom_certified h σ p m hc hpm
 
 end Spectral
 
